@@ -116,7 +116,8 @@ class Gen:
         if c < 0.70:
             return str(r.randint(13, 2000))
         if c < 0.85 and self.decimals:
-            return r.choice(["0.5", "2.5", "0.25", "1.5", "0.1", "0.2", "0.3", "12.75", "3.14", "0.001", ".5", "1.", "17.2", "100.125"])
+            return r.choice(["0.5", "2.5", "0.25", "1.5", "0.1", "0.2", "0.3", "12.75", "3.14", "0.001", ".5", "1.", "17.2", "100.125", "0.00002", "0.0000001",
+                             "123456.789", "0.000001234", "99999.99999"])
         if c < 0.92 and self.big:
             return r.choice(["9223372036854775807", "9223372036854775808", "18446744073709551616", "4294967296", "2147483648",
                              "1000000000000000000000", "123456789012345678901234567890", "99999999999"])
